@@ -5,7 +5,8 @@ PathControl::interpolate/check; arithmetic-free, for every step function / valid
 script / interruption point).
 Correspondence (harness/control.cpp linking the real libompl vs drv_control):
   (a) propagate / propagateWhileValid, all overloads, lock-step on scripted validity predicates;
-  (b) control::RRT (both intermediate-state modes, NearestNeighborsLinear) run with recording samplers,
+  (b) control::RRT (both intermediate-state modes, NearestNeighborsLinear) and control::SST (tree, costs, witness set;
+      step counts replayed by a twin of the planner's RNG) run with recording samplers,
       the Lean model re-run on the recorded draws: status, approximate flag, difference, path and the
       whole tree must be identical bit for bit; (b2) the same planner driven by scripted samplers on hand-shaped
       lattice scripts (exact ties, threshold hits, out-of-range step counts) against the model on the same line;
@@ -42,7 +43,7 @@ class Sys:
 
     @property
     def nreals(self):
-        return {"point": 2, "uni": 3, "dint": 4}[self.kind]
+        return {"point": 2, "uni": 3, "dint": 4, "car": 3}[self.kind]
 
     def toks(self):
         return [self.kind] + [B(x) for x in self.lo + self.hi + self.clo + self.chi] + [B(self.dt), str(self.mn), str(self.mx)]
@@ -65,6 +66,9 @@ def sys_step(kind, s, u, dt):
         return [s[0] + u[0] * dt, s[1] + u[1] * dt]
     if kind == "uni":
         return [s[0] + u[0] * math.cos(s[2]) * dt, s[1] + u[0] * math.sin(s[2]) * dt, wrap_so2(s[2] + u[1] * dt)]
+    if kind == "car":
+        return [s[0] + u[0] * math.cos(s[2]) * dt, s[1] + u[0] * math.sin(s[2]) * dt,
+                wrap_so2(s[2] + u[0] * (math.sin(u[1]) / math.cos(u[1])) * dt)]
     return [s[0] + s[2] * dt, s[1] + s[3] * dt, s[2] + u[0] * dt, s[3] + u[1] * dt]
 
 
@@ -72,7 +76,7 @@ def sys_valid(sy, boxes, s):
     for i in range(len(sy.lo)):
         if s[i] - EPS > sy.hi[i] or s[i] + EPS < sy.lo[i]:
             return False
-    if sy.kind == "uni" and not (s[2] < PI and s[2] >= -PI):
+    if sy.kind in ("uni", "car") and not (s[2] < PI and s[2] >= -PI):
         return False
     for lo, hi in boxes:
         if not (s[0] < lo[0] or s[0] > hi[0]) and not (s[1] < lo[1] or s[1] > hi[1]):
@@ -101,10 +105,18 @@ def goal_dist(goal, s):
     return math.sqrt(dx * dx + dy * dy)
 
 
+def goal_inside(kind, goal, thr, s):
+    """the goal's own isSatisfied (strict), recomputed"""
+    if kind == "l1":
+        return abs(s[0] - goal[0]) + abs(s[1] - goal[1]) < thr
+    return goal_dist(goal, s) < thr
+
+
 class Problem:
-    def __init__(self, sy, boxes, starts, goal, thr):
+    def __init__(self, sy, boxes, starts, goal, thr, goal_kind="pos"):
         self.sy, self.boxes, self.starts, self.goal, self.thr = sy, boxes, [list(map(float, x)) for x in starts], \
             list(map(float, goal)), float(thr)
+        self.goal_kind = goal_kind
 
     def env_toks(self):
         t = ["boxes", "2", str(len(self.boxes))]
@@ -114,10 +126,10 @@ class Problem:
 
     def toks(self):
         return self.sy.toks() + self.env_toks() + ["starts", str(len(self.starts))] + [B(x) for st in self.starts for x in st] + \
-            ["goal"] + [B(x) for x in self.goal] + [B(self.thr)]
+            ["goal", self.goal_kind] + [B(x) for x in self.goal] + [B(self.thr)]
 
     def describe(self):
-        return "%s boxes=%s starts=%s goal=%s thr=%g" % (self.sy.name(), self.boxes, self.starts, self.goal, self.thr)
+        return "%s boxes=%s starts=%s goal=%s:%s thr=%g" % (self.sy.name(), self.boxes, self.starts, self.goal_kind, self.goal, self.thr)
 
 
 # ---------------------------------------------------------------------------------- parsing harness output
@@ -146,6 +158,7 @@ def parse_solution(line, nreals):
     r["min"] = int(kv("min"))
     r["max"] = int(kv("max"))
     r["libcheck"] = kv("libcheck")
+    r["insidegoal"] = kv("insidegoal")
     assert t[i] == "path"
     i += 1
     if t[i] == "none":
@@ -239,13 +252,20 @@ def oracle(pb, sol):
         if not d <= FLT_EPS:
             fails.append({"clause": "replay-mismatch", "seg": i,
                           "detail": "replaying control %d for %d steps ends %.3g away from path state %d" % (i, k, d, i + 1)})
-    gd = goal_dist(pb.goal, S[-1])
-    in_goal = gd < pb.thr      # GoalRegion::isSatisfied is strict
+    # "inside the goal" is the goal's own isSatisfied on the reported last state (called in the harness on the real goal
+    # object: predicate goals give no distance, region goals use their own distance), cross-checked by recomputation
+    in_goal = sol["insidegoal"] == "1"
+    mine = goal_inside(pb.goal_kind, pb.goal, pb.thr, S[-1])
+    if in_goal != mine:
+        fails.append({"clause": "goal-verdict-differs", "seg": len(C),
+                      "detail": "goal->isSatisfied(last state) = %s but the recomputed %s-goal test says %s" % (in_goal, pb.goal_kind, mine)})
     if not in_goal and not sol["approx"]:
-        fails.append({"clause": "goal", "seg": len(C), "detail": "last state is %.6g from the goal (threshold %g) and the solution is not flagged approximate" % (gd, pb.thr)})
+        fails.append({"clause": "goal", "seg": len(C), "detail": "the %s goal is not satisfied at the last state %s and the solution is not flagged approximate"
+                      % (pb.goal_kind, S[-1][:2])})
     if not in_goal and sol["status"] == "EXACT_SOLUTION":
         fails.append({"clause": "status-exact-not-in-goal", "seg": len(C),
-                      "detail": "solve() returned EXACT_SOLUTION but the last state is %.6g from the goal (threshold %g); solution flagged approximate=%s" % (gd, pb.thr, sol["approx"])})
+                      "detail": "solve() returned EXACT_SOLUTION but the %s goal is not satisfied at the last state %s; solution flagged approximate=%s"
+                      % (pb.goal_kind, S[-1][:2], sol["approx"])})
     stats["in_goal"] = in_goal
     return fails, stats
 
@@ -266,6 +286,9 @@ def make_sys(kind, variant):
     if kind == "uni":
         dt, mn, mx = [(0.2, 1, 12), (0.1, 3, 8), (0.35, 1, 5)][variant % 3]
         return Sys("uni", WORLD[0], WORLD[1], [-0.5, -1.2], [1.5, 1.2], dt, mn, mx)
+    if kind == "car":
+        dt, mn, mx = [(0.25, 1, 10), (0.15, 2, 7), (0.4, 1, 4)][variant % 3]
+        return Sys("car", WORLD[0], WORLD[1], [-0.5, -0.6], [1.5, 0.6], dt, mn, mx)
     dt, mn, mx = [(0.2, 1, 8), (0.1, 2, 10), (0.25, 1, 3)][variant % 3]
     return Sys("dint", WORLD[0] + [-1.5, -1.5], WORLD[1] + [1.5, 1.5], [-1.0, -0.5], [2.0, 1.5], dt, mn, mx)
 
@@ -273,14 +296,18 @@ def make_sys(kind, variant):
 def full_state(kind, xy, rng=None):
     if kind == "point":
         return list(xy)
-    if kind == "uni":
+    if kind in ("uni", "car"):
         return list(xy) + [rng.uniform(-3.0, 3.0) if rng else 0.5]
     return list(xy) + [0.0, 0.0]
 
 
-def std_problem(kind, variant, envname):
+def std_problem(kind, variant, envname, goal_kind="pos"):
     sy = make_sys(kind, variant)
-    return Problem(sy, ENVS[envname], [full_state(kind, [1.0, 1.0])], full_state(kind, [9.0, 9.0]), 1.0)
+    return Problem(sy, ENVS[envname], [full_state(kind, [1.0, 1.0])], full_state(kind, [9.0, 9.0]), 1.0, goal_kind)
+
+
+def pick_goal_kind(rng):
+    return rng.choice(["pos", "pos", "pos", "pred", "l1"])
 
 
 def random_problem(rng, kind):
@@ -315,7 +342,7 @@ def random_problem(rng, kind):
                 q = free_point() or a
             st = full_state(kind, q, rng)
             starts.insert(rng.below(len(starts) + 1), st)
-    return Problem(sy, boxes, starts, full_state(kind, b, rng), rng.choice([0.5, 1.0, 2.0]))
+    return Problem(sy, boxes, starts, full_state(kind, b, rng), rng.choice([0.5, 1.0, 2.0]), pick_goal_kind(rng))
 
 
 def parse_plan_line(line):
@@ -323,8 +350,8 @@ def parse_plan_line(line):
     t = line.split()
     off = 2 if t[0] == "plan" else 1
     kind = t[off]
-    nb = {"point": 2, "uni": 2, "dint": 4}[kind]
-    nr = {"point": 2, "uni": 3, "dint": 4}[kind]
+    nb = {"point": 2, "uni": 2, "dint": 4, "car": 2}[kind]
+    nr = {"point": 2, "uni": 3, "dint": 4, "car": 3}[kind]
     i = off + 1
     fl = [F(x) for x in t[i:i + 2 * nb + 4]]
     i += 2 * nb + 4
@@ -346,26 +373,31 @@ def parse_plan_line(line):
         starts.append([F(x) for x in t[i:i + nr]])
         i += nr
     assert t[i] == "goal"
-    goal = [F(x) for x in t[i + 1:i + 1 + nr]]
-    i += 1 + nr
-    pb = Problem(sy, boxes, starts, goal, F(t[i]))
+    gk = t[i + 1]
+    goal = [F(x) for x in t[i + 2:i + 2 + nr]]
+    i += 2 + nr
+    pb = Problem(sy, boxes, starts, goal, F(t[i]), gk)
     kv = dict(x.split("=") for x in t[i + 1:] if "=" in x)
     if t[0] == "plan":
         return t[1], pb, int(kv["seed"]), int(kv["budget"])
+    if t[0] == "rrtplay":
+        return ("RRTi" if kv["inter"] == "1" else "RRT"), pb, 0, line.count(" U ") + line.count(" G")
+    if t[0] == "sst":
+        return "SST", pb, int(kv["seed"]), int(kv["iters"])
     return ("RRTi" if kv["inter"] == "1" else "RRT"), pb, int(kv["seed"]), int(kv["iters"])
 
 
 # ---------------------------------------------------------------------------------- (a) pwv / propagate scripts
 def gen_pwv_scripts(rng, nrand):
     lines = []
-    for kind in ("point", "uni", "dint"):
+    for kind in ("point", "uni", "dint", "car"):
         sy = make_sys(kind, 0)
         st = full_state(kind, [2.0, 3.0])
-        if kind == "uni":
+        if kind in ("uni", "car"):
             st[2] = 3.0      # near the +pi seam so that the wrap is exercised
         if kind == "dint":
             st[2], st[3] = 0.5, -0.25
-        ct = [0.7, -0.9] if kind != "uni" else [1.2, 1.1]
+        ct = [1.2, 1.1] if kind == "uni" else ([1.3, 0.5] if kind == "car" else [0.7, -0.9])
         base = sy.toks()
         tail = ["st"] + [B(x) for x in st] + ["ct"] + [B(x) for x in ct]
         for steps in (0, 1, 2, 5, -1, -4):
@@ -383,7 +415,7 @@ def gen_pwv_scripts(rng, nrand):
             for f in (["single"], ["alias"], ["vec", "1"], ["vec", "0", "4"]):
                 lines.append(" ".join(["pwv"] + base + f + [str(steps), "v", "e"] + env + tail))
     for _ in range(nrand):
-        kind = rng.choice(["point", "uni", "dint"])
+        kind = rng.choice(["point", "uni", "dint", "car"])
         sy = make_sys(kind, rng.below(3))
         st = full_state(kind, [rng.uniform(0, 10), rng.uniform(0, 10)], rng)
         if kind == "dint":
@@ -414,7 +446,7 @@ def pwv_oracle(line, out):
         return None
     head, _, cnt = out.partition(" | ")
     kind = t[1]
-    nb = {"point": 2, "uni": 2, "dint": 4}[kind]
+    nb = {"point": 2, "uni": 2, "dint": 4, "car": 2}[kind]
     i = 2 + 2 * nb + 4 + 3
     form = t[i]
     i += 1
@@ -456,14 +488,14 @@ def gen_rrtplay(rng):
     """adversarial hand-shaped draw scripts on dyadic lattices: exact distance ties between tree nodes (nearest must take
     the first), ties between control candidates (best-of-k keeps the earlier), step counts 0 / below min / above max,
     first step invalid, several (some invalid) start states, early goal hits in intermediate mode."""
-    kind = rng.choice(["point", "point", "uni", "dint"])
+    kind = rng.choice(["point", "point", "uni", "dint", "car"])
     dt = rng.choice([0.25, 0.5])
     mn = rng.choice([1, 1, 2, 3])
     mx = mn + rng.choice([0, 2, 5])
     if kind == "point":
         sy = Sys("point", [0.0, 0.0], [8.0, 8.0], [-1.0, -1.0], [1.0, 1.0], dt, mn, mx)
-    elif kind == "uni":
-        sy = Sys("uni", [0.0, 0.0], [8.0, 8.0], [-1.0, -1.0], [1.0, 1.0], dt, mn, mx)
+    elif kind in ("uni", "car"):
+        sy = Sys(kind, [0.0, 0.0], [8.0, 8.0], [-1.0, -1.0], [1.0, 1.0], dt, mn, mx)
     else:
         sy = Sys("dint", [0.0, 0.0, -2.0, -2.0], [8.0, 8.0, 2.0, 2.0], [-1.0, -1.0], [1.0, 1.0], dt, mn, mx)
     boxes = [([3.0, 5.0], [4.0, 6.0])] if rng.chance(1, 2) else []
@@ -471,7 +503,7 @@ def gen_rrtplay(rng):
     def st(x, y):
         if kind == "point":
             return [float(x), float(y)]
-        if kind == "uni":
+        if kind in ("uni", "car"):
             return [float(x), float(y), rng.choice([0.0, 0.5, -1.0, 3.0, -3.0])]
         return [float(x), float(y), rng.choice([0.0, 0.5, -0.5]), rng.choice([0.0, 0.25])]
     starts = [st(4, 4)]
@@ -480,7 +512,7 @@ def gen_rrtplay(rng):
     if rng.chance(1, 4):
         starts.insert(rng.below(len(starts) + 1), st(3.5, 5.5) if boxes else st(9, 9))    # invalid start
     goal = st(rng.choice([6, 7]), rng.choice([4, 7]))
-    pb = Problem(sy, boxes, starts, goal, rng.choice([0.5, 1.0]))
+    pb = Problem(sy, boxes, starts, goal, rng.choice([0.5, 1.0]), pick_goal_kind(rng))
     k = rng.choice([1, 2, 3])
     inter = rng.below(2)
     ctls = [(-1.0, 0.0), (1.0, 0.0), (0.0, 1.0), (0.0, -1.0), (1.0, 1.0), (0.0, 0.0), (0.5, -0.5), (1.0, -1.0)]
@@ -556,6 +588,8 @@ def judge_plan(ck, hbin, planner, pb, seed, budget, line, out, rc, err, tag, rec
     ck.count("runs:%s" % tag)
     ck.count("planner:%s" % planner)
     ck.count("system:%s" % pb.sy.kind)
+    ck.count("goal:%s" % pb.goal_kind)
+    ck.count("goal:%s:%s" % (pb.goal_kind, planner))
     ck.count("start-states:%d (%d invalid)" % (len(pb.starts), sum(1 for x in pb.starts if not sys_valid(pb.sy, pb.boxes, x))))
     ck.count("status:%s:%s" % (planner, sol["status"]))
     if sol["has"]:
@@ -606,13 +640,14 @@ def run(ck):
     ck.rule = ("one case = one planner run (planner, system, environment, start/goal, seed, evaluation budget) whose reported "
                "PathControl is re-propagated by the independent Python oracle; non-trivial = a path with at least one "
                "control segment was reported; distinct by (planner, problem, seed, budget)")
-    ck.trusted += ["harness/control.cpp: the three systems' propagators, the box/bounds validity checker, the position goal and the "
-                   "recording sampler wrappers (all through OMPL's virtual interfaces; RRTx derives from control::RRT to read nn_)",
-                   "checks/c02.py `oracle`: an independent copy of the three systems in Python doubles (math.sin/cos/fmod = the same glibc)",
+    ck.trusted += ["harness/control.cpp: the four systems' propagators, the box/bounds validity checker, the three goal classes and the "
+                   "recording sampler wrappers (all through OMPL's virtual interfaces; RRTx/SSTx derive from the planners to read their "
+                   "protected trees; SST's step counts are replayed by a twin RNG seeded like the planner's)",
+                   "checks/c02.py `oracle`: an independent copy of the four systems in Python doubles (math.sin/cos/fmod = the same glibc)",
                    "model abstractions: functional states instead of buffers (aliasing modelled separately as pwvAlias), step counts "
                    "instead of double durations inside the model (converted at the protocol boundary), tree indices instead of pointers"]
     ck.assumptions += ["the user's propagator, validity checker, distance and goal are deterministic pure functions (parameters of every theorem)",
-                       "planners other than control::RRT are covered only on the explored runs (trace conformance, no model)",
+                       "planners other than control::RRT and control::SST are covered only on the explored runs (trace conformance, no model)",
                        "every duration must be a whole number k >= 0 of steps; k in [minSteps,maxSteps] is proved for control::RRT "
                        "(k = 1 with intermediate states) and only counted for the others (KPIECE1/PDST split motions at cell boundaries)"]
     ck.lean_build(LEAN_TARGETS)
@@ -632,8 +667,8 @@ def run(ck):
     scripts.append(("pwv", ["control"] + gen_pwv_scripts(ck.rng.fork("pwv"), 300 if quick else 4000)))
     plan_corpus = []
     for tag, script in scripts:
-        lines = [l for l in script[1:] if l.split()[0] not in ("plan", "rrt")]
-        plan_corpus += [l for l in script[1:] if l.split()[0] in ("plan", "rrt")]
+        lines = [l for l in script[1:] if l.split()[0] not in ("plan", "rrt", "sst")]
+        plan_corpus += [l for l in script[1:] if l.split()[0] in ("plan", "rrt", "sst")]
         if not lines:
             continue
         s = [script[0]] + lines
@@ -674,17 +709,20 @@ def run(ck):
     for line in plan_corpus:
         planner, pb, seed, budget = parse_plan_line(line)
         (jobs if line.startswith("plan") else rjobs).append((planner, pb, seed, budget, line))
+    # Syclop needs a sampleable goal (INVALID_GOAL otherwise)
         ck.count("corpus-planner-lines")
     for planner in PLANNERS:
-        for kind in ("point", "uni", "dint"):
+        for kind in ("point", "uni", "dint", "car"):
             for envname in ("empty", "wall", "two"):
-                reps = 10 if quick else 40
+                reps = 8 if quick else 30
                 for rep in range(reps):
-                    pb = std_problem(kind, r.below(3), envname) if rep % 2 == 0 else random_problem(r, kind)
+                    pb = std_problem(kind, r.below(3), envname, pick_goal_kind(r)) if rep % 2 == 0 else random_problem(r, kind)
+                    if planner.startswith("Syclop"):
+                        pb.goal_kind = "pos"
                     seed = r.below(100000)
                     budget = r.choice(budgets)
                     bias = 0.05 if r.chance(2, 3) else r.choice([0.0, 0.3])
-                    k = r.choice([1, 1, 3])
+                    k = r.choice([1, 2, 3, 5])
                     line = " ".join(["plan", planner] + pb.toks() + ["k=%d" % k, "bias=" + B(bias), "seed=%d" % seed, "budget=%d" % budget])
                     ck.count("directed-control-samples:k=%d" % k)
                     jobs.append((planner, pb, seed, budget, line))
@@ -697,12 +735,12 @@ def run(ck):
 
     # ---------------- (b) control RRT lock-step on recorded draws
     rr = ck.rng.fork("rrt")
-    for kind in ("point", "uni", "dint"):
+    for kind in ("point", "uni", "dint", "car"):
         for envname in ("empty", "wall", "two"):
             for inter in (0, 1):
-                reps = 10 if quick else 40
+                reps = 8 if quick else 30
                 for rep in range(reps):
-                    pb = std_problem(kind, rr.below(3), envname) if rep % 2 == 0 else random_problem(rr, kind)
+                    pb = std_problem(kind, rr.below(3), envname, pick_goal_kind(rr)) if rep % 2 == 0 else random_problem(rr, kind)
                     seed = rr.below(100000)
                     k = rr.choice([1, 1, 2, 5])
                     iters = rr.choice([0, 3, 40, 400, 1500, 3000] if quick else [0, 1, 7, 60, 600, 3000, 6000])
@@ -710,18 +748,33 @@ def run(ck):
                     line = " ".join(["rrt"] + pb.toks() + ["k=%d" % k, "inter=%d" % inter, "bias=" + B(bias), "seed=%d" % seed,
                                                            "iters=%d" % iters])
                     rjobs.append(("RRTi" if inter else "RRT", pb, seed, iters, line))
+    # ---------------- (b3) control SST lock-step on recorded draws (same machinery; `sst` lines)
+    rs3 = ck.rng.fork("sst")
+    for kind in ("point", "uni", "dint", "car"):
+        for envname in ("empty", "wall", "two"):
+            for rep in range(6 if quick else 24):
+                pb = std_problem(kind, rs3.below(3), envname, pick_goal_kind(rs3)) if rep % 2 == 0 else random_problem(rs3, kind)
+                seed = rs3.below(100000)
+                iters = rs3.choice([0, 5, 60, 500, 2000] if quick else [0, 2, 30, 300, 2000, 5000])
+                sel, prune = rs3.choice([(0.2, 0.1), (1.0, 0.5), (2.0, 0.25), (0.5, 1.5), (0.0, 0.0)])
+                line = " ".join(["sst"] + pb.toks() + ["sel=" + B(sel), "prune=" + B(prune), "bias=" + B(rs3.choice([0.05, 0.0, 0.4])),
+                                                       "seed=%d" % seed, "iters=%d" % iters])
+                rjobs.append(("SST", pb, seed, iters, line))
     plays, impls = [], []
     with concurrent.futures.ThreadPoolExecutor(max_workers=min(16, os.cpu_count() or 4)) as ex:
         futs = [ex.submit(run_one, ck, hbin, j[4], NOLEAK) for j in rjobs]
         for j, fu in zip(rjobs, futs):
             out, rc, err = fu.result()
-            sol = judge_plan(ck, hbin, j[0], j[1], j[2], j[3], j[4], out, rc, err, "rrt-lockstep", records)
+            tag = "sst-lockstep" if j[0] == "SST" else "rrt-lockstep"
+            sol = judge_plan(ck, hbin, j[0], j[1], j[2], j[3], j[4], out, rc, err, tag, records)
             if sol is not None and len(out) >= 2:
                 plays.append(out[1])
                 impls.append((j, out[0]))
-                ck.count("rrt-lockstep:draws", out[1].count(" G") + out[1].count(" U "))
-                ck.count("rrt-lockstep:goal-biased-draws", out[1].count(" G"))
-                ck.count("rrt-lockstep:tree-nodes", int(out[0].partition(" | tree ")[2].split()[0]))
+                ck.count(tag + ":draws", out[1].count(" G") + out[1].count(" U "))
+                ck.count(tag + ":goal-biased-draws", out[1].count(" G"))
+                ck.count(tag + ":tree-nodes", int(out[0].partition(" | tree ")[2].split()[0]))
+                if j[0] == "SST":
+                    ck.count("sst-lockstep:witnesses", int(out[0].partition(" | wits ")[2].split()[0]))
     if plays:
         model, rc2, err2 = ck.run_bin(ck.driver(DRIVER), ["control"] + plays, timeout=900)
         if rc2 != 0:
@@ -731,13 +784,13 @@ def run(ck):
                 ck.disagreements += 1
                 a, b = impl_line.split(), m.split()
                 pos = next((i for i in range(min(len(a), len(b))) if a[i] != b[i]), min(len(a), len(b)))
-                ck.report({"engine": "control", "what": "control::RRT and its model disagree"}, script=["control", j[4]],
+                ck.report({"engine": "control", "what": "control::%s and its model disagree" % j[0]}, script=["control", j[4]],
                           expected=" ".join(b[max(0, pos - 3):pos + 6]), observed=" ".join(a[max(0, pos - 3):pos + 6]),
                           found_input=False, engine="control",
-                          obligation="correspondence control: control::RRT::solve vs OmplModel.CRRT.solve on the recorded draws (first differing token %d)" % pos)
-                ck.log("control RRT lock-step disagreement (%s seed %d iters %d) at token %d" % (j[0], j[2], j[3], pos))
+                          obligation="correspondence control: control::%s::solve vs its Lean model on the recorded draws (first differing token %d)" % (j[0], pos))
+                ck.log("control %s lock-step disagreement (seed %d iters %d) at token %d" % (j[0], j[2], j[3], pos))
                 break
-            ck.count("rrt-lockstep:identical-runs")
+            ck.count(("sst" if j[0] == "SST" else "rrt") + "-lockstep:identical-runs")
 
     # ---------------- (b2) control RRT on hand-shaped draw scripts: real planner with scripted samplers vs the model
     rs = ck.rng.fork("rrtplay")
@@ -776,6 +829,7 @@ def run(ck):
         if len(p["S"]) <= 400:
             pair_lines.append(path_op("pcheck", pb, p))
             pair_lines.append(path_op("pinterp", pb, p))
+            pair_lines.append(path_op("pgeom", pb, p))
             for _ in range(2):
                 mu = mutate_path(rp, pb, p)
                 if mu:
@@ -783,6 +837,7 @@ def run(ck):
                     n = len(Sb) // pb.sy.nreals
                     pair_lines.append(" ".join(["pcheck"] + pb.sy.toks() + pb.env_toks() + [str(n)] + Sb + Cb + Db))
                     pair_lines.append(" ".join(["pinterp"] + pb.sy.toks() + pb.env_toks() + [str(n)] + Sb + Cb + Db))
+                    pair_lines.append(" ".join(["pgeom"] + pb.sy.toks() + pb.env_toks() + [str(n)] + Sb + Cb + Db))
                     ck.count("path-mutation:" + what)
     if lean_lines:
         model, rc2, err2 = ck.run_bin(ck.driver(DRIVER), ["control"] + lean_lines, timeout=900)
@@ -840,7 +895,7 @@ def replay(ck, data):
     rcode = 0
     for line in script[1:]:
         t = line.split()
-        if t[0] in ("plan", "rrt"):
+        if t[0] in ("plan", "rrt", "sst"):
             out, rc, err = run_one(ck, hbin, line, NOLEAK)
             if rc != 0 or not out:
                 print("harness rc=%s\n%s" % (rc, (err or "")[-3000:]))
@@ -854,10 +909,10 @@ def replay(ck, data):
             for f in fails:
                 print("PROPERTY FAILS [%s] segment %d: %s" % (f["clause"], f["seg"], f["detail"]))
                 rcode = 1
-            if t[0] == "rrt" and len(out) >= 2:
+            if t[0] in ("rrt", "sst") and len(out) >= 2:
                 model, _, _ = ck.run_bin(ck.driver(DRIVER), ["control", out[1]])
                 if model and model[0] != out[0]:
-                    print("control RRT model and implementation disagree on the recorded draws")
+                    print("the planner model and the implementation disagree on the recorded draws")
                     rcode = 1
         else:
             impl, rc, err, model = ck.run_pair(hbin, DRIVER, ["control", line])
@@ -880,16 +935,18 @@ MANIFEST = {
     "design_ref": "DESIGN.md 2.2",
     "text": "Lean 4 theorems (arithmetic-free: for every step function, validity predicate, script of sampler draws and interruption "
             "point) over executable models of SpaceInformation::propagateWhileValid (both overloads), SimpleDirectedControlSampler::sampleTo, "
-            "PathControl::check/interpolate and control::RRT::solve (both intermediate-state modes): the reported (state, control, steps) "
+            "PathControl::check/interpolate/asGeometric, control::RRT::solve (both intermediate-state modes) and control::SST::solve (witness set, "
+            "best-representative replacement, solution snapshots): the reported (state, control, steps) "
             "triples replay exactly with every intermediate step valid, durations are whole step counts in range, the first state is a "
             "valid start and an exact status implies the goal. The models are tied to the code by bit-exact lock-step runs (propagation "
-            "core on scripted validity predicates; control RRT re-run on the draws recorded from the real planner, comparing the whole "
-            "tree). SST, EST, KPIECE1, PDST, SyclopRRT and SyclopEST have no model: their reported paths are checked by trace conformance "
-            "only — every explored run (3 systems x box environments x seeds x evaluation budgets) is re-propagated by an independent "
+            "core on scripted validity predicates; control RRT and control SST re-run on the draws recorded from the real planners, comparing the "
+            "whole tree, costs and witnesses). EST, KPIECE1, PDST, SyclopRRT and SyclopEST have no model: their reported paths are checked by trace conformance "
+            "only — every explored run (4 systems incl. a non-additive car, 3 goal kinds incl. a plain predicate goal, box environments, seeds, evaluation budgets, k in {1,2,3,5} directed control samples) is re-propagated by an independent "
             "oracle and by the Lean spec replayOK; they are covered on the explored runs and nowhere else.",
     "note": "Trusted: Lean kernel and the three standard axioms; the hand-written models outside the explored scripts; the harness's three "
-            "systems and recording wrappers; the Python copy of the systems. User propagators other than the three, ODE-solver "
-            "propagators and planners other than control RRT beyond the explored runs are not verified.",
+            "systems and recording wrappers; the Python copy of the systems. User propagators other than the four, ODE-solver "
+            "propagators and planners other than control RRT / SST beyond the explored runs are not verified; the sampler bound theorem is "
+            "exact arithmetic (IEEE rounding executed, not verified).",
     "technique": "Lean 4 proof (tree invariant by induction over the script) + lock-step differential correspondence + trace conformance "
                  "with an independent replay oracle",
     "engine_kind": "Lean models + theorems (propagation core, control RRT), C++ harness linking libompl, line-protocol lock-step, "
